@@ -156,7 +156,12 @@ func runC02(c *core.Ctx) {
 // parent container has other children): its atomic notification uses the parent as prefix.
 func c02Exposed(c *core.Ctx) {
 	for _, p := range core.Packages("vt") {
-		ex := p.ExposedAtoms()
+		var ex []*core.Atom
+		for _, a := range p.ExposedAtoms() {
+			if a.Kind == "entry" {
+				ex = append(ex, a)
+			}
+		}
 		if len(ex) == 0 {
 			continue
 		}
